@@ -55,6 +55,9 @@ def main():
             rc0, out0 = sh(cmd, cwd=os.path.join(wt, a.module))
             rc, out = sh(["git", "apply", patch], cwd=wt)
             assert rc == 0, "patch does not apply: " + out
+            if a.overlay_p2p and any(f.endswith("pkg/p2p/p2p.go") for f in files):
+                # the patch touches p2p.go itself: the stub has to be regenerated from the patched file
+                sh(["go", "run", ".", os.path.join(wt, "node/pkg/p2p/p2p.go"), stub], cwd=os.path.join(ROOT, "tools/p2pstub"))
             rc1, out1 = sh(cmd, cwd=os.path.join(wt, a.module))
             os.remove(os.path.join(wt, pkgdir, "zz_seed_demo_test.go"))
             rc2, out2 = sh(["go", "test", "-vet=off", "-count=1"] + extra + [pkgrel], cwd=os.path.join(wt, a.module))
